@@ -6,9 +6,10 @@ Contracts on the REAL `AutoSerialize.save` and its callees over a ghost filesyst
                                         overridden by the writes the library models record while the body is interpreted
   loadable(FS[p])   what `load` needs: p is a directory whose root group attrs contain `_autoserialize`, or a readable
                     zip archive that contains the root `zarr.json` of such a group
-  complete(FS[p],o) loadable, every non-skipped attribute of o has been serialised (ghost `done`, set only by a normally
-                    returning `_serialize_value`), the skip metadata is written; for a zip: every file of the staged tree
-                    is in the archive under its relative name and the tree was not modified after it was enumerated
+  complete(FS[p],o) loadable and every non-skipped attribute of o has been serialised (ghost `done`, set only by a normally
+                    returning `_serialize_value`); for a zip: every file of the staged tree is in the archive under its
+                    relative name and the tree was not modified after it was enumerated.  A SUCCESSFUL save must in addition
+                    have written the skip metadata (`full=True`).
 
 The global invariant is  Inv(FS): forall q. loadable(FS[q]) => complete(FS[q])  ("no partial object is loadable").
 `save` must preserve it on EVERY exit (normal and exceptional), must not touch any q != target, and in write-once mode
